@@ -907,6 +907,15 @@ pub fn run_teardown(iters: u64, seed: u64, out: &str, feats: Value, sample: u64)
             let interesting = !pending.is_empty() || !unjoined.is_empty();
             if interesting {
                 hung_runs += 1;
+                if hung_runs >= 12 {
+                    // plenty of evidence: every further hung iteration costs seconds of waiting
+                    written += 1;
+                    for e in &evs {
+                        serde_json::to_writer(&mut o, e).unwrap();
+                        o.write_all(b"\n").unwrap();
+                    }
+                    break;
+                }
             }
             if interesting || run % sample.max(1) == 0 {
                 written += 1;
